@@ -103,18 +103,23 @@ def ns_available():
         return False
 
 
-def run_ns(stage, uid, user=None):
+def run_ns(stage, uid, user=None, euid=None):
     """run the real binary in a private mount namespace with the staged trees at the real paths; returns the set of ORIGIN markers"""
     out = os.path.join(stage, 'out')
     if user is None:
         user = uid != 0
     inner = (f'mount -t tmpfs tmpfs /etc && mount -t tmpfs tmpfs /run && mount -t tmpfs tmpfs /usr/share && '
-             f'mkdir -p /etc/containers/systemd /run/containers/systemd /usr/share/containers/systemd && '
-             f'mount --bind {stage}/adm /etc/containers/systemd && mount --bind {stage}/run /run/containers/systemd && '
+             f'mkdir -p /etc/containers /run/containers/systemd /usr/share/containers/systemd && '
+             + (f'mkdir -p /etc/containers/systemd && mount --bind {stage}/adm /etc/containers/systemd && ' if not os.path.exists(os.path.join(stage, 'admlink')) else
+                # the administrator's directory itself is a symbolic link (absolute, or a chain) to a directory elsewhere
+                f'mkdir -p /etc/qv-adm && mount --bind {stage}/adm /etc/qv-adm && ' + open(os.path.join(stage, 'admlink')).read().strip() + ' && ')
+             + f'mount --bind {stage}/run /run/containers/systemd && '
              f'mount --bind {stage}/distro /usr/share/containers/systemd && '
              + (f'mkdir -p /etc/qv-users && mount --bind {stage}/usersreal /etc/qv-users && ' if os.path.isdir(os.path.join(stage, 'usersreal')) else '') +
              f'env -u QUADLET_UNIT_DIRS HOME={stage}/home XDG_CONFIG_HOME={stage}/home/.config XDG_RUNTIME_DIR={stage}/xdgrun '
-             + (f'setpriv --reuid={uid} --regid={uid} --clear-groups ' if uid != 0 else '')
+             + (f'setpriv --reuid={uid} --regid={uid} --clear-groups ' if uid != 0 and euid is None else '')
+             # real and effective uid differ (a set-uid helper): the invoking — real — user's directory is the one to read
+             + (f'setpriv --ruid={uid} --euid={euid} --regid={uid} --clear-groups ' if euid is not None else '')
              + f'{stage}/quadlet-rs ' + ('--user ' if user else '') + f'--dry-run --no-kmsg-log {out}')
     p = subprocess.run(['unshare', '-m', 'sh', '-c', inner], capture_output=True, timeout=60)
     so = p.stdout.decode('utf-8', 'replace')
@@ -170,6 +175,12 @@ def oracle(ctx):
                 os.symlink(os.path.join('/etc/qv-users', deep, 'users'), os.path.join(stage, 'usersreal', 'hop'))
                 os.symlink('/etc/qv-users/hop', os.path.join(stage, 'adm', 'users'))
                 tree = tree + ['<users -> /etc/qv-users/hop -> /etc/qv-users/' + deep + '/users>']
+        elif rnd.random() < 0.2:
+            with open(os.path.join(stage, 'admlink'), 'w') as f:
+                f.write(rnd.choice(['ln -s /etc/qv-adm /etc/containers/systemd',
+                                    'ln -s /etc/qv-hop /etc/containers/systemd && ln -s /etc/qv-adm /etc/qv-hop',
+                                    'ln -s ../qv-adm /etc/containers/systemd']))
+            tree = tree + ['</etc/containers/systemd is a symbolic link: ' + open(os.path.join(stage, 'admlink')).read() + '>']
         subprocess.run(['chmod', '-R', 'a+rX', stage])
         cases.append((stage, tree, marks))
 
@@ -177,8 +188,9 @@ def oracle(ctx):
         stage, tree, marks = case
         uid = rnd.choice([1001, 2002, 7])
         # the mode (--user) and the invoking uid are separate dimensions: uid 0 runs a user generator too (user@0.service)
-        return uid, run_ns(stage, 0, False), run_ns(stage, uid, True), run_ns(stage, 0, True)
-    for (stage, tree, marks), (uid, r0, ru, ru0) in zip(cases, e2e.pmap(run, cases, workers=8)):
+        other = rnd.choice([u for u in (1001, 2002, 7, 1000) if u != uid])
+        return uid, run_ns(stage, 0, False), run_ns(stage, uid, True), run_ns(stage, 0, True), (other, run_ns(stage, uid, True, euid=other))
+    for (stage, tree, marks), (uid, r0, ru, ru0, (other, rue)) in zip(cases, e2e.pmap(run, cases, workers=8)):
         res.oracle_evals += 1
         fails = []
         want_root = {t for t, (lab, d) in marks.items() if lab in ('distro', 'run') or (lab == 'adm' and not (d == 'users' or d.startswith('users/')))}
@@ -192,6 +204,8 @@ def oracle(ctx):
         want_user0 = {t for t, (lab, d) in marks.items() if lab in ('xdg', 'xdgrun') or (lab == 'adm' and may_read_user(0, d))}
         if ru0[0] not in (0, 1) or ru0[1] != want_user0:
             fails.append(f'the user generator invoked by uid 0 (exit {ru0[0]}) read {sorted(ru0[1])}, permitted and expected {sorted(want_user0)}')
+        if rue[0] not in (0, 1) or rue[1] != want_user:
+            fails.append(f'the user generator invoked by uid {uid} with effective uid {other} (exit {rue[0]}) read {sorted(rue[1])}, permitted and expected {sorted(want_user)} {rue[2][-200:]}')
         for f in fails:
             res.oracle_failures.append(dict(op='namespace-run', input=dict(tree=tree, uid=uid), impl_output=dict(root=sorted(r0[1]), user=sorted(ru[1])), oracle_expectation=f))
         shutil.rmtree(stage, ignore_errors=True)
